@@ -94,37 +94,59 @@
     }
 
 // @common
-    /// Walker harnesses replace `Directory::from_reader` by this stub (the parser itself is checked under C05/C08):
-    /// the image holds one TAG byte at the start of every directory; the stub reads the byte at the reader's
-    /// current position, checks that the requested length is the one the harness declared for that directory and
-    /// returns the harness' symbolic entry list for it. A walker that seeks to a wrong offset or passes a wrong
-    /// length therefore gets an error (or the wrong directory) and fails the comparison with the reference.
-    static mut DIRS: [[REntry; 2]; 3] = [[REntry { tile_id: 0, offset: 0, length: 1, run_length: 0 }; 2]; 3];
-    static mut DIR_LEN: [u64; 3] = [0; 3];
-    static mut STUB_CALLS: u32 = 0;
+    /// Walker harnesses replace `Directory::from_reader` by a FIXED-SHAPE REFERENCE PARSER (the crate's parser
+    /// is checked against the same reference under C05/C08): the image holds real spec-encoded directories of
+    /// exactly 2 (resp. 1) entries in the fixed layout W2 (every varint padded to a fixed width), the stub reads
+    /// exactly that many bytes at the reader's current position, requires the requested length to be the image
+    /// length of such a directory and decodes it with /verif's reference decoder. Unlike the crate's parser it has
+    /// no input-dependent loop or allocation, which is what symbolic execution of the walker needs. In the native
+    /// replay build the stub attribute is dropped and the crate's own parser reads the same image.
+    const W2: [usize; 4] = [10, 1, 5, 10];
+    const L2: usize = 1 + 2 * (10 + 1 + 5 + 10);
+    const L1: usize = 1 + (10 + 1 + 5 + 10);
 
-    fn stub_from_reader(input: &mut impl Read, length: u64, compression: Compression) -> Result<Directory> {
-        let mut b = [0u8; 1];
-        let n = input.read(&mut b)?;
-        unsafe { STUB_CALLS += 1; }
-        if n != 1 || b[0] == 0 || b[0] > 3 || compression != Compression::None {
+    fn stub_from_reader2(input: &mut impl Read, length: u64, compression: Compression) -> Result<Directory> {
+        let mut b = [0u8; L2];
+        if length != L2 as u64 || compression != Compression::None {
             return Err(std::io::Error::from(std::io::ErrorKind::InvalidData));
         }
-        let k = (b[0] - 1) as usize;
-        let mut v = Vec::with_capacity(2);
-        let mut j = 0;
-        while j < 3 {
-            if j == k {
-                if length != unsafe { DIR_LEN[j] } {
-                    return Err(std::io::Error::from(std::io::ErrorKind::InvalidData));
-                }
-                let d = unsafe { DIRS[j] };
+        input.read_exact(&mut b)?;
+        match vr::ref_decode_fixed::<2>(&b, &W2) {
+            None => Err(std::io::Error::from(std::io::ErrorKind::InvalidData)),
+            Some(d) => {
+                let mut v = Vec::with_capacity(2);
                 v.push(crate::Entry { tile_id: d[0].tile_id, offset: d[0].offset, length: d[0].length, run_length: d[0].run_length });
                 v.push(crate::Entry { tile_id: d[1].tile_id, offset: d[1].offset, length: d[1].length, run_length: d[1].run_length });
+                Ok(Directory::from(v))
             }
-            j += 1;
         }
-        Ok(Directory::from(v))
+    }
+
+    fn stub_from_reader1(input: &mut impl Read, length: u64, compression: Compression) -> Result<Directory> {
+        let mut b = [0u8; L1];
+        if length != L1 as u64 || compression != Compression::None {
+            return Err(std::io::Error::from(std::io::ErrorKind::InvalidData));
+        }
+        input.read_exact(&mut b)?;
+        match vr::ref_decode_fixed::<1>(&b, &W2) {
+            None => Err(std::io::Error::from(std::io::ErrorKind::InvalidData)),
+            Some(d) => {
+                let mut v = Vec::with_capacity(1);
+                v.push(crate::Entry { tile_id: d[0].tile_id, offset: d[0].offset, length: d[0].length, run_length: d[0].run_length });
+                Ok(Directory::from(v))
+            }
+        }
+    }
+
+    fn put2<const M: usize>(img: &mut [u8; M], at: usize, e: &[REntry; 2]) {
+        let raw = vr::raw_columns(e);
+        let w = [[W2[0]; 2], [W2[1]; 2], [W2[2]; 2], [W2[3]; 2]];
+        vr::put_columns(img, at, &raw, &w);
+    }
+    fn put1<const M: usize>(img: &mut [u8; M], at: usize, e: &[REntry; 1]) {
+        let raw = vr::raw_columns(e);
+        let w = [[W2[0]; 1], [W2[1]; 1], [W2[2]; 1], [W2[3]; 1]];
+        vr::put_columns(img, at, &raw, &w);
     }
 
     /// Value mode of an instance: 0 = offsets symbolic / lengths concrete, 1 = lengths symbolic / offsets concrete.
@@ -147,26 +169,25 @@
             kani::assume(e[i].length >= 1);
             if tiles { kani::assume(e[i].run_length >= 1 && e[i].run_length <= max_run); } else { kani::assume(e[i].run_length == 0); }
             kani::assume(e[i].tile_id <= u64::MAX - 8);
+            kani::assume(e[i].offset <= u64::MAX - (1u64 << 33));
             i += 1;
         }
         let span = if e[0].run_length == 0 { 1 } else { e[0].run_length as u64 };
         kani::assume(e[1].tile_id >= e[0].tile_id && e[1].tile_id - e[0].tile_id >= span);
     }
 
-// @h id=H3.1a-m$m prop=C03 rep="m:0-1" quick="0-1" cap=900 mem=20 unwind=5 uw="rec:read_dir_rec=1;read_dir_rec=3" stubs="Directory::from_reader -> tag-byte stub returning the harness' symbolic directory for the position/length requested (parser checked under C05/C08)" bounds="root-only directory of 2 tile entries: any ids, any (shared, decreasing, overlapping) offsets, any lengths, run lengths 1..2 (<= 4 tiles); root at a non-zero offset; probe id any u64; recursion bound 1 (no pointer present)"
+// @h id=H3.1a-m$m prop=C03 rep="m:0-1" quick="0-1" cap=900 mem=20 unwind=11 uw="rec:read_dir_rec=1;read_dir_rec=3" stubs="Directory::from_reader -> fixed-shape reference parser (2 entries, padded varints; the crate's parser is checked against the same reference under C05/C08)" bounds="root-only directory of 2 tile entries: any ids, run lengths 1..2 (<= 4 tiles), mode $m (0: any offsets incl. shared/decreasing/overlapping, lengths fixed; 1: any lengths, offsets fixed); root at offset 3 of the stream; probe id any u64; recursion bound 1 (no pointer present)"
     /// the full walk yields exactly the entry whose run covers the probe id (offset and length as stored), nothing for any other id
     #[kani::proof]
-    #[kani::stub(crate::directory::Directory::from_reader, stub_from_reader)]
+    #[kani::stub(crate::directory::Directory::from_reader, stub_from_reader2)]
     fn h3_1a_full_root_only_m$m() {
         let mut e = any_entries::<2>();
         let t: u64 = kani::any();
-        let rlen: u64 = 5; // concrete: a symbolic length makes the stub's error branch (and io::Error drop glue) feasible for symex
         assume_dir(&e, true, 2);
         fix_values(&mut e, $m, 0);
-        let mut img = [0u8; 8];
-        img[3] = 1; // root directory (tag 1) at offset 3
-        unsafe { DIRS[0] = e; DIR_LEN[0] = rlen; }
-        let full = read_directories(&mut Cursor::new(&img[..]), Compression::None, (3, rlen), 0, ..);
+        let mut img = [0u8; 3 + L2];
+        put2(&mut img, 3, &e);
+        let full = read_directories(&mut Cursor::new(&img[..]), Compression::None, (3, L2 as u64), 0, ..);
         assert!(full.is_ok());
         let full = full.unwrap();
         assert!(got(&full, t) == expect(&e, t));
@@ -180,10 +201,10 @@
         std::mem::forget(full);
     }
 
-// @h id=H11.2-m$m prop=C11 rep="m:0-1" quick="0-1" cap=900 mem=20 unwind=5 uw="rec:read_dir_rec=1;read_dir_rec=3" stubs="Directory::from_reader -> tag-byte stub (see H3.1a)" bounds="root-only directory of 2 tile entries (any ids/offsets/lengths, run lengths 1..2); filter = every combination of {Included,Excluded,Unbounded}^2 with any u64 endpoints (empty, inverted, 0, u64::MAX included); probe id any u64. 'Full opening' is the reference expectation that H3.1a proves the unfiltered walk equal to"
+// @h id=H11.2-m$m prop=C11 rep="m:0-1" quick="0-1" cap=900 mem=20 unwind=11 uw="rec:read_dir_rec=1;read_dir_rec=3" stubs="Directory::from_reader -> fixed-shape reference parser (see H3.1a)" bounds="root-only directory of 2 tile entries (any ids, run lengths 1..2, value mode $m); filter = every combination of {Included,Excluded,Unbounded}^2 with any u64 endpoints (empty, inverted, 0, u64::MAX included); probe id any u64. 'Full opening' is the reference expectation that H3.1a proves the unfiltered walk equal to"
     /// range-filtered walk == full walk restricted to the range, for a symbolic probe id; never an error where the full walk succeeds
     #[kani::proof]
-    #[kani::stub(crate::directory::Directory::from_reader, stub_from_reader)]
+    #[kani::stub(crate::directory::Directory::from_reader, stub_from_reader2)]
     fn h11_2_partial_root_only_m$m() {
         let mut e = any_entries::<2>();
         let ks: u8 = kani::any();
@@ -191,15 +212,13 @@
         let a: u64 = kani::any();
         let b: u64 = kani::any();
         let t: u64 = kani::any();
-        let rlen: u64 = 5; // concrete: a symbolic length makes the stub's error branch (and io::Error drop glue) feasible for symex
         kani::assume(ks < 3 && ke < 3);
         assume_dir(&e, true, 2);
         fix_values(&mut e, $m, 0);
-        let mut img = [0u8; 8];
-        img[3] = 1;
-        unsafe { DIRS[0] = e; DIR_LEN[0] = rlen; }
+        let mut img = [0u8; 3 + L2];
+        put2(&mut img, 3, &e);
         let range = (mk_bound(ks, a), mk_bound(ke, b));
-        let part = read_directories(&mut Cursor::new(&img[..]), Compression::None, (3, rlen), 0, range);
+        let part = read_directories(&mut Cursor::new(&img[..]), Compression::None, (3, L2 as u64), 0, range);
         assert!(part.is_ok());
         let part = part.unwrap();
         let want = if in_range(&range, t) { expect(&e, t) } else { None };
@@ -214,51 +233,39 @@
     }
 
 // @common
-    /// shared set-up of the two-leaf image: returns (flat entries, leaf_dir_offset, root length)
-    fn two_leaf_image(img: &mut [u8; 32], mode: u8) -> ([REntry; 4], u64, u64) {
+    const LEAF_BASE: usize = 60;
+    const IMG3: usize = 60 + 2 * L2 + 8;
+    /// shared set-up of the two-leaf image: root (2 pointers) at offset 2; leaf section at 60 after a gap;
+    /// leaf 0 at section offset L2+5, leaf 1 at section offset 1 (reverse order, gaps). Returns the flat tile entries.
+    fn two_leaf_image(img: &mut [u8; IMG3], mode: u8) -> [REntry; 4] {
         let mut l0 = any_entries::<2>();
         let mut l1 = any_entries::<2>();
-        // concrete layout: leaf section at 10, leaves in reverse order with a gap (leaf 0 at +7, leaf 1 at +1)
-        let ldo: u64 = 10;
-        let o0: u64 = 7;
-        let o1: u64 = 1;
-        let pl0: u32 = 6;
-        let pl1: u32 = 9;
         assume_dir(&l0, true, 1);
         assume_dir(&l1, true, 1);
         kani::assume(l1[0].tile_id > l0[1].tile_id);
         fix_values(&mut l0, mode, 0);
         fix_values(&mut l1, mode, 20);
-        kani::assume(pl0 >= 1 && pl1 >= 1);
+        let o0 = (L2 + 5) as u64;
+        let o1 = 1u64;
         let root = [
-            REntry { tile_id: l0[0].tile_id, offset: o0, length: pl0, run_length: 0 },
-            REntry { tile_id: l1[0].tile_id, offset: o1, length: pl1, run_length: 0 },
+            REntry { tile_id: l0[0].tile_id, offset: o0, length: L2 as u32, run_length: 0 },
+            REntry { tile_id: l1[0].tile_id, offset: o1, length: L2 as u32, run_length: 0 },
         ];
-        img[2] = 1; // root: tag 1 at offset 2
-        let mut j = 8usize;
-        while j < 24 {
-            if j as u64 == ldo + o0 { img[j] = 2; }
-            if j as u64 == ldo + o1 { img[j] = 3; }
-            j += 1;
-        }
-        let rlen: u64 = 5;
-        unsafe {
-            DIRS[0] = root; DIR_LEN[0] = rlen;
-            DIRS[1] = l0; DIR_LEN[1] = pl0 as u64;
-            DIRS[2] = l1; DIR_LEN[2] = pl1 as u64;
-        }
-        ([l0[0], l0[1], l1[0], l1[1]], ldo, rlen)
+        put2(img, 2, &root);
+        put2(img, LEAF_BASE + o0 as usize, &l0);
+        put2(img, LEAF_BASE + o1 as usize, &l1);
+        [l0[0], l0[1], l1[0], l1[1]]
     }
 
-// @h id=H3.1b-m$m prop=C03 rep="m:0-1" quick="0-1" cap=1500 mem=24 unwind=5 uw="rec:read_dir_rec=2;read_dir_rec=3;two_leaf_image=17" stubs="Directory::from_reader -> tag-byte stub (see H3.1a)" bounds="root of 2 leaf pointers (pointer lengths 6 and 9) + 2 leaves of 2 tile entries each, run length 1 (4 tiles), leaf section at offset 10 after a gap, leaves at pointer offsets 7 and 1 (reverse order, gap) in a 32-byte image (layout concrete: a symbolic layout makes the parser stub's error branch feasible for symex and exhausts 24 GB); probe any u64; recursion bound 2 (depth-2 tree)"
+// @h id=H3.1b-m$m prop=C03 rep="m:0-1" quick="9-9" cap=1500 mem=24 unwind=11 uw="rec:read_dir_rec=2;read_dir_rec=3" stubs="Directory::from_reader -> fixed-shape reference parser (see H3.1a)" bounds="root of 2 leaf pointers + 2 leaves of 2 tile entries each, run length 1 (4 tiles), any ids, value mode $m; leaf section at offset 60 after a gap, leaves in reverse order with gaps (layout concrete); probe any u64; recursion bound 2 (depth-2 tree)"
     /// nested leaf directories: the walk finds each leaf at leaf-section offset + pointer offset and yields exactly the addressed entries
     #[kani::proof]
-    #[kani::stub(crate::directory::Directory::from_reader, stub_from_reader)]
+    #[kani::stub(crate::directory::Directory::from_reader, stub_from_reader2)]
     fn h3_1b_full_two_leaves_m$m() {
-        let mut img = [0u8; 32];
-        let (flat, ldo, rlen) = two_leaf_image(&mut img, $m);
+        let mut img = [0u8; IMG3];
+        let flat = two_leaf_image(&mut img, $m);
         let t: u64 = kani::any();
-        let full = read_directories(&mut Cursor::new(&img[..]), Compression::None, (2, rlen), ldo, ..);
+        let full = read_directories(&mut Cursor::new(&img[..]), Compression::None, (2, L2 as u64), LEAF_BASE as u64, ..);
         assert!(full.is_ok());
         let full = full.unwrap();
         assert!(got(&full, t) == expect(&flat, t));
@@ -268,13 +275,13 @@
         std::mem::forget(full);
     }
 
-// @h id=H11.3-m$m prop=C11 rep="m:0-1" quick="0-1" cap=1500 mem=24 unwind=5 uw="rec:read_dir_rec=2;read_dir_rec=3;two_leaf_image=17" stubs="Directory::from_reader -> tag-byte stub (see H3.1a)" bounds="the two-leaf tree of H3.1b; filter = all 9 bound-kind combinations, any u64 endpoints; probe any u64"
+// @h id=H11.3-m$m prop=C11,C03 rep="m:0-1" quick="1-1" cap=1500 mem=24 unwind=11 uw="rec:read_dir_rec=2;read_dir_rec=3" stubs="Directory::from_reader -> fixed-shape reference parser (see H3.1a)" bounds="the two-leaf tree of H3.1b; filter = all 9 bound-kind combinations, any u64 endpoints; probe any u64"
     /// leaf directories beyond the range end are skipped and the others walked: partial == full restricted to the range (skip branch taken and not taken)
     #[kani::proof]
-    #[kani::stub(crate::directory::Directory::from_reader, stub_from_reader)]
+    #[kani::stub(crate::directory::Directory::from_reader, stub_from_reader2)]
     fn h11_3_partial_two_leaves_m$m() {
-        let mut img = [0u8; 32];
-        let (flat, ldo, rlen) = two_leaf_image(&mut img, $m);
+        let mut img = [0u8; IMG3];
+        let flat = two_leaf_image(&mut img, $m);
         let ks: u8 = kani::any();
         let ke: u8 = kani::any();
         let a: u64 = kani::any();
@@ -282,7 +289,7 @@
         let t: u64 = kani::any();
         kani::assume(ks < 3 && ke < 3);
         let range = (mk_bound(ks, a), mk_bound(ke, b));
-        let part = read_directories(&mut Cursor::new(&img[..]), Compression::None, (2, rlen), ldo, range);
+        let part = read_directories(&mut Cursor::new(&img[..]), Compression::None, (2, L2 as u64), LEAF_BASE as u64, range);
         assert!(part.is_ok());
         let part = part.unwrap();
         let want = if in_range(&range, t) { expect(&flat, t) } else { None };
@@ -294,33 +301,36 @@
         std::mem::forget(part);
     }
 
-// @h id=H8.4 prop=C08 tier=quick cap=1500 mem=24 unwind=7 uw="read_dir_rec=3" checks=std stubs="Directory::from_reader -> tag-byte stub (see H11.2)" bounds="directories of 2 entries with arbitrary fields (any mix of leaf pointers and tile entries with run length <= 1, any pointer offsets and lengths, any leaf_dir_offset in u64) over an image in which every position may hold any directory tag: arbitrary pointer graphs incl. self-loops and 2-cycles; recursion bound 7 > the walk's depth limit"
-    /// hostile leaf pointers (cycles, long chains, offsets near 2^64) are answered with an error or a value: no crash, no unbounded recursion
+// @h id=H8.4-k$k prop=C08 rep="k:0-3" quick="0-3" cap=900 mem=16 unwind=11 uw="read_dir_rec=3" checks=std recfail=cex stubs="Directory::from_reader -> fixed-shape reference parser (1 entry)" bounds="pointer-graph hazard class k of {0: leaf pointer to its own directory; 1: two directories pointing at each other; 2: leaf_dir_offset = 2^64-1 and any pointer offset >= 1 (sum overflows); 3: chain root -> leaf -> leaf -> tile entry (depth 3, legal)}; recursion bound 11 > the walk's depth limit of 4"
+    /// hostile leaf pointers (cycles, offsets near 2^64) are answered with an error, legal nesting with a value: no crash, no unbounded recursion
     #[kani::proof]
-    #[kani::stub(crate::directory::Directory::from_reader, stub_from_reader)]
-    fn h8_4_hostile_pointer_graph() {
-        let d0 = any_entries::<2>();
-        let d1 = any_entries::<2>();
-        let ldo: u64 = kani::any();
-        let t0: u8 = kani::any();
-        let t1: u8 = kani::any();
-        let t2: u8 = kani::any();
-        let mut i = 0;
-        while i < 2 {
-            kani::assume(d0[i].run_length <= 1 && d1[i].run_length <= 1);
-            i += 1;
+    #[kani::stub(crate::directory::Directory::from_reader, stub_from_reader1)]
+    fn h8_4_pointer_graph_k$k() {
+        let ptr = |id: u64, off: u64| [REntry { tile_id: id, offset: off, length: L1 as u32, run_length: 0 }];
+        let tile = [REntry { tile_id: 9, offset: 0, length: 3, run_length: 1 }];
+        let mut ldo: u64 = 0;
+        let mut img = [0u8; 3 * L1];
+        if $k == 0 {
+            put1(&mut img, 0, &ptr(0, 0));
+        } else if $k == 1 {
+            put1(&mut img, 0, &ptr(0, L1 as u64));
+            put1(&mut img, L1, &ptr(0, 0));
+        } else if $k == 2 {
+            let off: u64 = kani::any();
+            ldo = u64::MAX;
+            kani::assume(off >= 1 && off < u64::MAX);
+            put1(&mut img, 0, &ptr(0, off));
+        } else {
+            put1(&mut img, 0, &ptr(0, L1 as u64));
+            put1(&mut img, L1, &ptr(0, 2 * L1 as u64));
+            put1(&mut img, 2 * L1, &tile);
         }
-        kani::assume(t0 <= 2 && t1 <= 2 && t2 <= 2);
-        let img = [1u8, t0, t1, t2];
-        unsafe {
-            DIRS[0] = d0; DIR_LEN[0] = 1;
-            DIRS[1] = d1; DIR_LEN[1] = d0[0].length as u64;
+        let r = read_directories(&mut Cursor::new(&img[..]), Compression::None, (0, L1 as u64), ldo, ..);
+        if $k == 3 {
+            assert!(r.is_ok());
+        } else {
+            assert!(r.is_err());
         }
-        let r = read_directories(&mut Cursor::new(&img[..]), Compression::None, (0, 1), ldo, ..);
-        kani::cover!(r.is_err());
-        kani::cover!(r.is_ok());
-        kani::cover!(d0[0].run_length == 0 && ldo == 0 && d0[0].offset == 0 && d0[0].length == 1 && r.is_err()); // self loop
-        kani::cover!(ldo == u64::MAX && d0[0].run_length == 0 && d0[0].offset == 5 && r.is_err());
-        kani::cover!(unsafe { STUB_CALLS } >= 4);
+        kani::cover!(true);
         std::mem::forget(r);
     }
